@@ -36,6 +36,7 @@ type C03Monitor struct {
 	s1Minter    minttypes.Minter
 	s1TBR, s1FC math.Int
 	pendingBurn math.Int // Σ BurnAmount of disputes that may execute in this BeginBlock
+	pendingIds  []uint64 // their ids
 	// actual time of the previous block, valid when the minter was already initialised at that block's BeginBlock
 	// (then that block recorded its own time as the start of the next mint interval)
 	lastBlockTime  time.Time
@@ -63,9 +64,11 @@ func (m *C03Monitor) BeginBlockEntry(c *Chain, ctx sdk.Context) {
 	m.s1TBR = modBal(c, ctx, minttypes.TimeBasedRewards)
 	m.s1FC = modBal(c, ctx, authtypes.FeeCollectorName)
 	m.pendingBurn = math.ZeroInt()
+	m.pendingIds = m.pendingIds[:0]
 	_ = c.App.DisputeKeeper.Disputes.Walk(ctx, nil, func(id uint64, d disputetypes.Dispute) (bool, error) {
 		if v, err := c.App.DisputeKeeper.Votes.Get(ctx, id); err != nil || !v.Executed {
 			m.pendingBurn = m.pendingBurn.Add(d.BurnAmount)
+			m.pendingIds = append(m.pendingIds, id)
 		}
 		return false, nil
 	})
@@ -128,6 +131,26 @@ func (m *C03Monitor) BeginBlockExit(c *Chain, ctx sdk.Context, err error) {
 		c.Violate("C03", "c03", "beginblock-minted-more-than-rate", map[string]interface{}{"delta": delta.String(), "expected_mint": expMint.String()})
 	} else if burn.GT(m.pendingBurn) {
 		c.Violate("C03", "c03", "beginblock-burned-more-than-dispute-burns", map[string]interface{}{"delta": delta.String(), "expected_mint": expMint.String(), "max_dispute_burn": m.pendingBurn.String()})
+	}
+	// ... and not less (added after C03-j): a dispute executed in this BeginBlock burns its burn amount except the part
+	// that became its voters' reward pot (one unit may be lost to halving an odd amount)
+	minBurn, executed := math.ZeroInt(), 0
+	for _, id := range m.pendingIds {
+		if v, err := c.App.DisputeKeeper.Votes.Get(ctx, id); err == nil && v.Executed {
+			if d, err := c.App.DisputeKeeper.Disputes.Get(ctx, id); err == nil {
+				executed++
+				if x := d.BurnAmount.Sub(d.VoterReward).SubRaw(1); x.IsPositive() {
+					minBurn = minBurn.Add(x)
+				}
+				m.st.Bucket("c03|dispute-executed|voter-pot=%v", d.VoterReward.IsPositive())
+			}
+		}
+	}
+	if executed > 0 {
+		m.st.Count("c03.dispute-burn.evals")
+		if burn.LT(minBurn) {
+			c.Violate("C03", "c03", "beginblock-burned-less-than-the-executed-disputes-burn-amounts", map[string]interface{}{"burned": burn.String(), "min": minBurn.String(), "executed": executed})
+		}
 	}
 	// split: one quarter (floor) to the fee collector, the rest to time based rewards. The fee collector
 	// is emptied by x/distribution in the same BeginBlock (after mint), so only the TBR side is observable exactly.
